@@ -116,7 +116,8 @@ theorem applyTo_refusal_keeps_prefix (H C : ℚ) (s : USpec) (a : WUnit) (g : FU
   have hv : (toWave a s).vu = none := by simp [toWave_eq, h]
   simp only [applyTo, ha, hg, hg', toFlux_eq, hv]
 
-/-- a unitless spectrum cannot be given a flux unit (TypeError), and is left as it was -/
+/-- a unitless spectrum cannot be given a flux unit: `toFlux` refuses (TypeError). (That the spectrum is left as the
+previous arguments left it is `applyTo_refusal_keeps_prefix`; `toFlux` itself returns no state on refusal.) -/
 theorem spectrum_to_flux_unitless_refused (s : USpec) (g : FUnit) (H C : ℚ) (h : s.vu = none) :
     toFlux g H C s = none := by simp [toFlux_eq, h]
 
